@@ -2,7 +2,7 @@
 # usage: seedall.sh [seed ids...]   -- runs every stored seeded change against the check(s) expected to catch it (on a scratch
 # worktree, /repo is not touched); one line per seed
 cd /verif
-declare -A OVERRIDE=( [C06-1]="C04" [C06-2]="C04" [C05-2]="C05 C20" [C05-3]="C02" [C12-3]="C10" [C16-3]="C16 C10" [C08-3]="C08 C04" [C08-4]="C08 C02" [C09-4]="C02" [C20-4]="C20 C04" [C06-4]="C04" [C12-4]="C12 C10" [C08-5]="C08 C01" [C09-5]="C09 C05" [C17-5]="C18" [C02-6]="C02 C01" [C08-6]="C08" )
+declare -A OVERRIDE=( [C06-1]="C04" [C06-2]="C04" [C05-2]="C05 C20" [C05-3]="C02" [C12-3]="C10" [C16-3]="C16 C10" [C08-3]="C08 C04" [C08-4]="C08 C02" [C09-4]="C02" [C20-4]="C20 C04" [C06-4]="C04" [C12-4]="C12 C10" [C08-5]="C08 C01" [C09-5]="C09 C05" [C17-5]="C18" [C02-6]="C02 C01" [C08-6]="C08" [C01-7]="C01 C15" [C06-7]="C06 C04" [C09-7]="C09 C05" )
 declare -A SKIP=( [C07-3]="neutralised by fix f308783 (see meta.json)" )
 ids=${@:-$(ls seeded | grep -E '^C[0-9]+-[0-9]+$')}
 for id in $ids; do
